@@ -52,6 +52,7 @@ LeavesTiny  == {INT, STR, NI, NSt}
 LeavesVal   == LeavesQuick \cup {NSl, NM, NP, NS}
 LeavesPair  == {INT, NI, NSt, NSt2, NSl, S(INT), ANY}
 LeavesMini  == {INT, NSt, NSt2}
+LeavesPtr   == {INT, NSt, NSt2, P(INT), P(P(INT)), P(NSt), P(NSt2)}
 
 \* the leaves goverter cannot convert by itself, and named non-struct types (C13)
 LeavesOdd   == {INT, B("uintptr"), B("unsafe.Pointer"), ERR, ANY, IFM, Fn, Ch, NI, NSt, NP, NSl, NM, NA}
